@@ -10,7 +10,8 @@ Local Open Scope Z_scope.
 Local Open Scope bool_scope.
 
 Inductive emsg : Type :=
-| EEof | ENewline | EExpName | EExpLt | EExpTagName | EExpEq | EExpString | EExpEndTag (nm : bytes) | EExpGt.
+| EEof | ENewline | EExpName | EExpLt | EExpTagName | EExpEq | EExpString | EExpEndTag (nm : bytes) | EExpGt
+| EOs (text : bytes).               (* Parser::load: errorString = Error::getErrorString() of the failed File call *)
 
 Inductive res (A : Type) : Type :=
 | Ok (a : A)
@@ -432,8 +433,12 @@ Definition parse (s : list Z) : res node := parseFrom (fuel_for s) (s ++ [0]).
    is read.  The target of parse is an Element the caller owns: parseElement assigns line, column and
    type, but *adds* to element.attributes (HashMap::append) and element.content (List::append);
    nested targets are always fresh Elements (a fresh Variant's toElement()). *)
-Record parser : Type := mkParser { o_line : Z; o_err : Z * Z * option emsg }.   (* pos.line; errorLine, errorColumn, errorString *)
-Definition new_parser (garbage : Z) : parser := mkParser garbage (0, 0, None).   (* Private() : errorLine(0), errorColumn(0) *)
+(* pos.line; errorLine, errorColumn, errorString.  [o_err = None]: the three error fields are NOT MODELLED at
+   this point - a parse that succeeds may have written them: the content loop of parseElement first tries
+   readToken, whose failure calls syntaxError, and only then rewinds and reads text (e.g. <c> LF SP /y</c>
+   succeeds and leaves "Expected name" at line 2 column 2 in the getters).  Found in round 3 by op fmiss. *)
+Record parser : Type := mkParser { o_line : Z; o_err : option (Z * Z * option emsg) }.
+Definition new_parser (garbage : Z) : parser := mkParser garbage (Some (0, 0, None)).   (* Private() : errorLine(0), errorColumn(0) *)
 
 Definition attrs_of (n : node) : list (bytes * bytes) := match n with N _ _ _ at_ _ => at_ | _ => [] end.
 Definition content_of (n : node) : list node := match n with N _ _ _ _ ct => ct | _ => [] end.
@@ -480,8 +485,8 @@ Definition parse_obj (clear : bool) (o : parser) (tgt : node) (s : list Z) : par
   let tgt1 := if clear then Nul else tgt in                  (* element.clear();   (repair 07) *)
   let r := parseFromInto (o_line o1) (attrs_of tgt1) (content_of tgt1) (fuel_for s) (s ++ [0]) in
   match r with
-  | Syn l c m => (mkParser 0 (l, c, Some m), r)
-  | _ => (mkParser 0 (o_err o1), r)                          (* the error fields keep their old content *)
+  | Syn l c m => (mkParser 0 (Some (l, c, Some m)), r)
+  | _ => (mkParser 0 None, r)                                (* old content, or a failed look-ahead token: not modelled *)
   end.
 
 Definition parse_with (o : parser) (tgt : node) (s : list Z) : parser * res node := parse_obj true o tgt s.
@@ -489,6 +494,42 @@ Definition parse_with (o : parser) (tgt : node) (s : list Z) : parser * res node
 (* the static wrappers Xml::parse(data, element): a fresh Private per call *)
 Definition static_parse (garbage : Z) (tgt : node) (s : list Z) : res node :=
   snd (parse_with (new_parser garbage) tgt s).
+
+(* ---- the file based entry points (Xml.cpp:448-457 Parser::load, 473-482 Xml::load, 484-490 Xml::save):
+        thin wrappers over File.  The file system is an input: what File::open / readAll answer. ------ *)
+Inductive file : Type :=
+| FMissing (oserr : bytes)          (* File::open (or readAll) fails; Error::getErrorString() = oserr *)
+| FData (content : bytes).          (* the String handed to parse holds all bytes of the file *)
+
+Inductive lres : Type :=
+| LNotRead                          (* false before parse was called: the target Element is not touched *)
+| LParsed (r : res node).           (* the answer of parse on the content (read as a C string, like every text) *)
+
+(* Xml::Parser::load(filePath, element): on a File failure only errorString is assigned - getErrorLine() and
+   getErrorColumn() keep what they held *)
+Definition load_with (o : parser) (tgt : node) (f : file) : parser * lres :=
+  match f with
+  | FMissing e => (mkParser (o_line o) (match o_err o with
+                                        | Some (l, c, _) => Some (l, c, Some (EOs e))
+                                        | None => None
+                                        end), LNotRead)
+  | FData d => (fst (parse_with o tgt d), LParsed (snd (parse_with o tgt d)))
+  end.
+
+(* the target Element after the call, where the model knows it *)
+Definition load_target (tgt : node) (r : lres) : option node :=
+  match r with
+  | LNotRead => Some tgt
+  | LParsed (Ok n) => Some n
+  | LParsed _ => None
+  end.
+
+(* static Xml::load(filePath, element) *)
+Definition static_load (garbage : Z) (tgt : node) (f : file) : lres :=
+  match f with
+  | FMissing _ => LNotRead
+  | FData d => LParsed (static_parse garbage tgt d)
+  end.
 
 (* ---- toString (Xml.cpp:490-534) ------------------------------------------------------------ *)
 
@@ -507,6 +548,12 @@ Fixpoint toStr (n : node) : list Z :=
   end.
 
 Definition toString (e : node) : list Z := gen_header ++ toStr e.
+
+(* static Xml::save(element, filePath): File::open(path, writeFlag) creates / truncates the file, then all
+   bytes of toString(element) are written.  [writable] = File::open succeeds.  Result: the returned flag
+   and the new content of the file (None = no file written). *)
+Definition save_file (e : node) (writable : bool) : bool * option bytes :=
+  if writable then (true, Some (toString e)) else (false, None).
 
 (* ---- the operations the harness drives ----------------------------------------------------- *)
 
@@ -768,3 +815,80 @@ Fixpoint vals_acc (acc : list node) (H : list payload) : list node :=
 Definition vals (H : heap) : list node := vals_acc [] (map pl H).
 
 Definition vabs (s : vstate) : store := map (option_map (hval (vals (hp s)))) (slots s).
+
+(* ---- a reference handed out by toElement() and kept by the caller (audit C16, finding 3) ------------
+   `Element& e = slot[i].toElement();  ...other operations...;  e.type = nm;`
+   The reference designates the payload block, not the Variant: a write through it is a plain in-place
+   write whatever the reference count says at that time.
+   Protocol of the harness (and of this model): the caller drops the reference as soon as an operation
+   targets the slot it came from; while the slot is untouched it keeps a counted reference to the block,
+   so the block is neither freed nor rewritten and the C++ reference stays valid. *)
+Inductive hop : Type :=
+| HOp (o : vop)                           (* an operation of the old alphabet *)
+| HHold (i : nat)                         (* Element& e = slot i .toElement();   (no write) *)
+| HWriteHeld (nm : bytes).                (* e.type = nm;   through the reference kept since HHold *)
+
+Record hstate : Type := mkHS { hvs : vstate; held : option (nat * nat) }.   (* the slot it came from, the block *)
+
+Definition block_of_slot (s : vstate) (i : nat) : option nat :=
+  match gget (slots s) i with Some (Some b) => Some b | _ => None end.
+
+(* the name of the element slot i holds ([] when it holds no element: toElement() then makes an empty one) *)
+Definition cur_name (s : vstate) (i : nat) : bytes :=
+  match gget (slots s) i with
+  | Some hi => match lookup (hp s) hi with
+               | Some k => match pl k with PElem _ _ nm _ _ => nm | PText _ => [] end
+               | None => []
+               end
+  | None => []
+  end.
+
+(* nobody but slot i sees block b *)
+Definition exclusive (s : vstate) (i b : nat) : bool :=
+  match block_of_slot s i with
+  | Some b' => (b' =? b)%nat && (rcof (hp s) b =? 1)%nat
+  | None => false
+  end.
+
+(* the in-place write of a block other Variants share: every handle that points to it sees the new name *)
+Definition write_shared (s : vstate) (b : nat) (nm : bytes) : vstate :=
+  match nth_error (hp s) b with
+  | Some k => match pl k with
+              | PElem l c _ at_ hs => mkV (upd b (mkBlock (rc k) (PElem l c nm at_ hs)) (hp s)) (slots s)
+              | PText _ => s
+              end
+  | None => s
+  end.
+
+Definition hstep (st : hstate) (o : hop) : hstate :=
+  let s := hvs st in
+  match o with
+  | HOp o' =>
+    mkHS (mstep s o')
+         (match held st with
+          | Some (i, b) => if (i =? target o')%nat then None else Some (i, b)
+          | None => None
+          end)
+  | HHold i =>
+    match gget (slots s) i with
+    | Some _ =>
+      (* toElement(): another type -> a fresh empty element, shared -> a private copy, else the block itself;
+         on the heap this is the step "rename the element to the name it has" *)
+      let s1 := mstep s (VName i (cur_name s i)) in
+      mkHS s1 (match block_of_slot s1 i with Some b => Some (i, b) | None => None end)
+    | None => mkHS s None
+    end
+  | HWriteHeld nm =>
+    match held st with
+    | Some (i, b) =>
+      if exclusive s i b
+      then (* the block is seen by slot i alone: the in-place write of `slot i .toElement().type = nm`
+              (conventions of mstep: old id retired, payload under a fresh id, slot redirected) *)
+           let s1 := mstep s (VName i nm) in
+           mkHS s1 (match block_of_slot s1 i with Some b1 => Some (i, b1) | None => None end)
+      else mkHS (write_shared s b nm) (held st)
+    | None => st
+    end
+  end.
+
+Definition hinit : hstate := mkHS vinit None.
